@@ -15,6 +15,8 @@
 //	O4 cap: O1 still holds for a trace family with 99 distinct values (nothing is demanded at 100 and 101).
 //	O5 re-evaluation: a trace evaluated before its last span arrived and again afterwards gets the key of the same
 //	   trace evaluated once (the key is a function of the trace's current content, not of earlier evaluations).
+//	F  (factory.go) several samplers built by ONE SamplerFactory over a real file configuration, in every order, with
+//	   configuration reloads in between: every sampler's key is the key of the same definition built alone.
 //
 //go:debug randseednop=0
 package main
@@ -677,7 +679,8 @@ func main() {
 	}
 	judge(r)
 	capFamily(r)
-	drawPhase(r) // sequential, after all parallel work: nothing else touches math/rand now
+	factoryPhase(r) // several samplers built by ONE real factory over a real file configuration (factory.go)
+	drawPhase(r)    // sequential, after all parallel work: nothing else touches math/rand now
 
 	var sigs []string
 	for s := range viols {
@@ -687,7 +690,7 @@ func main() {
 	for _, s := range sigs {
 		r.Violation(s, viols[s].what, viols[s].replay)
 	}
-	r.Set("rule", "same typed value sets per configured field (+ span count with UseTraceLength) => same key; all fields present everywhere, no nil, different rendered value sets => different keys; rate >= 1; exactly one value of the random draw in 0..rate-1 keeps")
+	r.Set("rule", "same typed value sets per configured field (+ span count with UseTraceLength) => same key; all fields present everywhere, no nil, different rendered value sets => different keys; rate >= 1; exactly one value of the random draw in 0..rate-1 keeps; the key does not depend on the other samplers the factory built (factory_rule)")
 	r.Set("bounds", map[string]any{"traces": bounds, "field_lists": fieldLists, "use_trace_length": []bool{false, true}, "samplers": typeNames,
 		"f_values": "absent,1,\"1\",1.5,\"a\",\"\",true,nil", "g_values": "absent,\"a\",\"\",1", "cap_family": "98/99/100/101 distinct values, 6 orderings/duplications"})
 	r.Sample(map[string]any{"example_trace": traceD{[]spanT{{pv(""), pv("a")}, {pv("a"), pv("a")}}, 0}.String()})
